@@ -103,5 +103,7 @@ Definition run_lim (x : sx) : sx :=
   L (run_hops (hinit files max) (dec_hops (sx_list (sx_nth 3 x)))).
 
 (* the real-time runs of the limiter observe only what left the directory and what is in it *)
-Definition proj_limrt (o : sx) : sx := L (map (fun ob => L [sx_nth 3 ob; sx_nth 4 ob]) (sx_list o)).
+(* the shape of a "lim" observation is kept (the monitors read the purged names and the files from it);
+   the estimate and the two maps cannot be seen from outside and are blanked *)
+Definition proj_limrt (o : sx) : sx := L (map (fun ob => L [I 0; L []; L []; sx_nth 3 ob; sx_nth 4 ob]) (sx_list o)).
 Definition run_limrt (x : sx) : sx := proj_limrt (run_lim x).
